@@ -383,17 +383,21 @@ func (t *Tokenizer) peek(skipComment bool) rune {
 		}
 	}
 
-	switch t.last {
-	case '•':
-		t.last = '*'
-	case '×':
-		t.last = '*'
-	case '÷':
-		t.last = '/'
-	case '–':
-		t.last = '-'
-	case 'ˆ':
-		t.last = '^'
+	// skipComment is false exactly inside string literals and quoted identifiers:
+	// their content is taken literally, the typographic aliases apply only outside
+	if skipComment {
+		switch t.last {
+		case '•':
+			t.last = '*'
+		case '×':
+			t.last = '*'
+		case '÷':
+			t.last = '/'
+		case '–':
+			t.last = '-'
+		case 'ˆ':
+			t.last = '^'
+		}
 	}
 
 	t.isLast = true
